@@ -76,7 +76,43 @@ pub fn fill_builder(
 ) -> BoardBuilder {
     let epf = ep_file.map(|f| File::from_index(f as usize));
     let (wr, br) = (rights(castle[WK], castle[WQ]), rights(castle[BK], castle[BQ]));
-    if order % 6 == 5 {
+    if order % 8 == 6 {
+        // IndexMut for the men, clear_square for squares that were occupied meanwhile
+        let mut bb = BoardBuilder::new();
+        for i in 0..64u8 {
+            bb[sq(i)] = Some((Piece::Knight, Color::Black));
+        }
+        for (i, x) in squares.iter().enumerate() {
+            match x {
+                Some((c, k)) => bb[sq(i as u8)] = Some((kind(*k), col(*c))),
+                None => {
+                    bb.clear_square(sq(i as u8));
+                }
+            }
+        }
+        bb.en_passant(epf);
+        bb.castle_rights(Color::Black, br);
+        bb.side_to_move(col(stm));
+        bb.castle_rights(Color::White, wr);
+        return bb;
+    }
+    if order % 8 == 7 {
+        // start from the Default builder (initial position) and overwrite everything
+        let mut bb = BoardBuilder::default();
+        for (i, x) in squares.iter().enumerate() {
+            match x {
+                Some((c, k)) => {
+                    bb.piece(sq(i as u8), kind(*k), col(*c));
+                }
+                None => {
+                    bb.clear_square(sq(i as u8));
+                }
+            }
+        }
+        bb.side_to_move(col(stm)).castle_rights(Color::White, wr).castle_rights(Color::Black, br).en_passant(epf);
+        return bb;
+    }
+    if order % 8 == 5 {
         let men: Vec<(Square, Piece, Color)> =
             squares.iter().enumerate().filter_map(|(i, x)| x.map(|(c, k)| (sq(i as u8), kind(k), col(c)))).collect();
         return BoardBuilder::setup(men.iter(), col(stm), wr, br, epf);
@@ -84,7 +120,7 @@ pub fn fill_builder(
     let mut bb = BoardBuilder::new();
     // steps: 0 = men, 1 = side, 2 = rights, 3 = en passant
     let orders: [[u8; 4]; 5] = [[0, 1, 2, 3], [3, 1, 0, 2], [2, 3, 0, 1], [1, 3, 2, 0], [3, 0, 2, 1]];
-    for step in orders[(order % 6) as usize] {
+    for step in orders[(order % 8) as usize] {
         match step {
             0 => {
                 for (i, x) in squares.iter().enumerate() {
